@@ -176,6 +176,10 @@ CANARIES = [
     ('c07-datetime-unquoted', 'C07', 'mindsdb_sql/parser/ast/select/constant.py', "        elif isinstance(self.value, (dt.date, dt.datetime, dt.timedelta)):", "        elif isinstance(self.value, (dt.date, dt.timedelta)) and not isinstance(self.value, dt.datetime):", 'C07.bounded'),
     ('c14-using-alias-kept', 'C14', 'mindsdb_sql/planner/plan_join.py', "                        new_param = '.'.join(param.split('.')[1:])", "                        new_param = param", 'C14.predictor'),
     ('c13-fill-from-end', 'C13', 'mindsdb_sql/planner/utils.py', "value = params.pop(0)", "value = params.pop(-1)", 'C13.consumer.fill'),
+    ('c13-cte-entry-replaced', 'C13', 'mindsdb_sql/planner/utils.py', "                    cte.query = node_out", "                    node.cte[node.cte.index(cte)] = node_out", 'C13.bounded.Select'),
+    ('c13-delete-table-skipped', 'C13', 'mindsdb_sql/planner/utils.py', "    elif isinstance(node, ast.Delete):\n        if node.table is not None:", "    elif isinstance(node, ast.Delete):\n        if node.table is not None and False:", 'C13.visit.Delete.table'),
+    ('c12-placeholder-alias-dropped', 'C12', 'mindsdb_sql/planner/utils.py', "return ast.Constant(value, alias=node.alias, parentheses=node.parentheses)", "return ast.Constant(value, parentheses=node.parentheses)", 'C12.fill'),
+    ('c17-harmless-hook-valueerror', 'C17', 'mindsdb_sql/render/sqlalchemy_render.py', "@compiles(INTERVAL)", "@compiles(INTERVAL, 'oracle')\ndef _compile_interval_oracle(element, compiler, **kw):\n    value, unit = element.info.split(' ', maxsplit=1)\n    return f\"INTERVAL '{value}' {unit.upper()}\"\n\n\n@compiles(INTERVAL)", None),
     ('c01-raw-query-newline-dropped', 'C01', 'mindsdb_sql/parser/utils.py', "            shift = last_pos + 1", "            shift = last_pos + 2", 'C01.prod.mindsdb.raw_query'),
 ]
 
@@ -212,7 +216,7 @@ def run_one(c, tier='quick'):
 
 def main(which, tier):
     which = (which or 'all').upper()
-    sel = [c for c in CANARIES if which == 'ALL' or c[1] == which]
+    sel = [c for c in CANARIES if which == 'ALL' or c[1] == which or c[0].upper() == which]
     from concurrent.futures import ThreadPoolExecutor
     bad = 0
     with ThreadPoolExecutor(max_workers=8) as ex:
